@@ -126,8 +126,15 @@ def check(case):
     positions = {i: set() for i in ids}
     calls = [0]
 
+    reuse = {}
+
     def run(batch, ctx):
         Xb = np.array([rows[i][0] for i in batch], dtype=float).reshape(len(batch), d)
+        if len(batch) in reuse:              # same array object as an earlier call of this batch length, refilled in place
+            reuse[len(batch)][:] = Xb
+            Xb = reuse[len(batch)]
+        else:
+            reuse[len(batch)] = Xb
         if pre:
             c = safe_call(m.predict, Xb, np.array([rows[i][1] for i in batch], dtype=int))
         else:
